@@ -146,7 +146,8 @@ def histSpec (k : Nat) (rc : Bool) (start ops obs : String) : String := Id.run d
           t := t.concat { names := n1, rows := norm r1 }
       | ["delete", ns] =>
         let names := if ns == "~" then [] else ns.splitOn "+"
-        if names.isEmpty || names.length == t.names.length || names.any (fun n => !t.names.contains n) then
+        -- refused: no names, every sample named (DISTINCT names are counted), or an unknown name
+        if names.isEmpty || names.eraseDups.length == t.names.length || names.any (fun n => !t.names.contains n) then
           return s!"step{step}:refused;file={dumpT t}"
         t := t.deleteSamples names
       | ["weed", recs, rev, tf, famb, ft, mask, gaps] =>
